@@ -14,6 +14,12 @@ type nat =
 | O
 | S of nat
 
+(** val option_map : ('a1 -> 'a2) -> 'a1 option -> 'a2 option **)
+
+let option_map f = function
+| Some a -> Some (f a)
+| None -> None
+
 type ('a, 'b) sum =
 | Inl of 'a
 | Inr of 'b
@@ -4303,3 +4309,209 @@ let check_cli = function
         | Some _ -> CExit (N0, [], [])
         | None -> CDiag (DgUtf8File, [], []))
   else CDiag (DgExt, [], [])
+
+(** val has_area : xcode -> bool **)
+
+let has_area c =
+  match c.xar with
+  | Nil -> false
+  | Val (_, _, _) -> true
+
+(** val blk : xcode list -> xcode list -> xcode list list **)
+
+let rec blk code cur0 =
+  match code with
+  | [] -> (match cur0 with
+           | [] -> []
+           | _ :: _ -> (rev cur0) :: [])
+  | c :: r ->
+    if has_area c
+    then app (match cur0 with
+              | [] -> []
+              | _ :: _ -> (rev cur0) :: []) ((c :: []) :: (blk r []))
+    else blk r (c :: cur0)
+
+(** val blocks : xcode list -> xcode list list **)
+
+let blocks code =
+  blk code []
+
+(** val block_of : xcode list -> bool -> nat -> n -> n **)
+
+let rec block_of code cur_nonempty i b0 =
+  match code with
+  | [] -> b0
+  | c :: r ->
+    (match i with
+     | O ->
+       if has_area c
+       then if cur_nonempty then N.add b0 (Npos XH) else b0
+       else b0
+     | S j ->
+       if has_area c
+       then block_of r false j
+              (N.add (if cur_nonempty then N.add b0 (Npos XH) else b0) (Npos
+                XH))
+       else block_of r true j b0)
+
+(** val block_index : xcode list -> n -> n **)
+
+let block_index code i =
+  block_of code false (N.to_nat i) N0
+
+type dtree =
+| DLeaf of n
+| DNode of n * dtree * dtree
+
+(** val build_tree : nat -> n -> n -> dtree **)
+
+let rec build_tree fuel n0 base =
+  match fuel with
+  | O -> DLeaf base
+  | S f ->
+    if N.leb n0 (Npos XH)
+    then DLeaf base
+    else let h = N.div n0 (Npos (XO XH)) in
+         DNode ((N.add base h), (build_tree f h base),
+         (build_tree f (N.sub n0 h) (N.add base h)))
+
+(** val dispatch_tree : n -> dtree **)
+
+let dispatch_tree n0 =
+  build_tree (N.to_nat n0) n0 N0
+
+(** val tree_select : dtree -> n -> n **)
+
+let rec tree_select t st0 =
+  match t with
+  | DLeaf b0 -> b0
+  | DNode (bound, lo, hi) ->
+    if N.ltb st0 bound then tree_select lo st0 else tree_select hi st0
+
+type irprog = { ir_blocks : xcode list list; ir_kind : skind;
+                ir_stacks : (n * n list list) list; ir_cur : n;
+                ir_last : n option; ir_points : (n * n) list; ir_start : 
+                n; ir_out : n list; ir_err : n list }
+
+(** val ser_stack : num list -> n list list **)
+
+let ser_stack l =
+  map num_display (rev l)
+
+(** val nonempty_stacks : state -> (n * num list) list **)
+
+let nonempty_stacks s =
+  filter (fun p -> match snd p with
+                   | [] -> false
+                   | _ :: _ -> true) s.stacks
+
+(** val build_ir :
+    bool -> n -> state -> xcode list -> xcode list -> irprog **)
+
+let build_ir fx89 level s log rest =
+  if N.ltb level (Npos (XO XH))
+  then { ir_blocks = (blocks rest); ir_kind = s.skind_; ir_stacks = [];
+         ir_cur = (Npos (XI XH)); ir_last = None; ir_points = []; ir_start =
+         N0; ir_out = []; ir_err = [] }
+  else (match rest with
+        | [] ->
+          { ir_blocks = []; ir_kind = s.skind_; ir_stacks = []; ir_cur =
+            (Npos (XI XH)); ir_last = None; ir_points = []; ir_start = N0;
+            ir_out = (rev s.outb); ir_err = (rev s.errb) }
+        | _ :: _ ->
+          let pre = blocks log in
+          let all = app pre (blocks rest) in
+          let tr = fun i -> block_index log i in
+          { ir_blocks = all; ir_kind = s.skind_; ir_stacks =
+          (map (fun p -> ((fst p), (ser_stack (snd p)))) (nonempty_stacks s));
+          ir_cur = s.cur; ir_last =
+          (if fx89 then option_map tr s.latest else s.latest); ir_points =
+          (map (fun p -> ((fst p), (tr (snd p)))) s.points); ir_start =
+          (if fx89
+           then N.of_nat (length pre)
+           else N.add (N.of_nat (length pre))
+                  (match rev log with
+                   | [] -> Npos XH
+                   | c :: _ -> if has_area c then Npos XH else N0)); ir_out =
+          (rev s.outb); ir_err = (rev s.errb) })
+
+(** val compile_prog : fixes -> bool -> ucode list -> n -> irprog option **)
+
+let compile_prog fx fx89 code level =
+  if N.eqb level N0
+  then Some (build_ir fx89 N0 (state0 SUnopt []) [] (map xcode_of_ucode code))
+  else (match optimize_prog fx code level [] with
+        | OptOk r -> Some (build_ir fx89 level r.ostate r.olog r.orest)
+        | _ -> None)
+
+(** val deser_stack : n list list -> num list option **)
+
+let deser_stack l =
+  fold_left (fun acc t ->
+    match acc with
+    | Some a ->
+      (match num_from_string t with
+       | Some x -> Some (x :: a)
+       | None -> None)
+    | None -> None) l (Some [])
+
+(** val deser_all : (n * n list list) list -> (n * num list) list option **)
+
+let rec deser_all = function
+| [] -> Some []
+| p :: r ->
+  let (i, t) = p in
+  (match deser_stack t with
+   | Some v ->
+     (match deser_all r with
+      | Some m0 -> Some ((i, v) :: m0)
+      | None -> None)
+   | None -> None)
+
+(** val run_block : xcode list -> n -> n m **)
+
+let rec run_block cmds b0 =
+  match cmds with
+  | [] -> ret (N.add b0 (Npos XH))
+  | c :: r ->
+    bind (execute_one c b0) (fun nb ->
+      if N.eqb nb (N.add b0 (Npos XH)) then run_block r b0 else ret nb)
+
+type irfinal =
+| IDone of state
+| IExit of n * state
+| IAbort of n * state
+| IIoErr of state
+| IFuel of state
+| IBadState
+
+(** val ir_loop : nat -> irprog -> state -> n -> irfinal **)
+
+let rec ir_loop fuel p s b0 =
+  match fuel with
+  | O -> IFuel s
+  | S f ->
+    let n0 = N.of_nat (length p.ir_blocks) in
+    if N.leb n0 b0
+    then IDone s
+    else (match nth_error p.ir_blocks
+                  (N.to_nat (tree_select (dispatch_tree n0) b0)) with
+          | Some cmds ->
+            (match run_block cmds b0 s with
+             | ROk (b', s') -> ir_loop f p s' b'
+             | RExit (c, s') -> IExit (c, s')
+             | RErr (e, s') ->
+               (match e with
+                | EEnc k -> IAbort (k, s')
+                | EIo -> IIoErr s'))
+          | None -> IBadState)
+
+(** val ir_run : nat -> irprog -> n list option list -> irfinal **)
+
+let ir_run fuel p input0 =
+  match deser_all p.ir_stacks with
+  | Some st0 ->
+    ir_loop fuel p { skind_ = p.ir_kind; stacks = st0; cur = p.ir_cur;
+      points = p.ir_points; latest = p.ir_last; inp = input0; outb =
+      (rev p.ir_out); errb = (rev p.ir_err) } p.ir_start
+  | None -> IBadState
